@@ -16,7 +16,10 @@ import z3
 from ..harness import Check, Enc, Obligation, cells
 from ..jx2smt import root_key, sym_array
 
-ORDERS = ("(p-c)+k", "(p+k)-c", "p-(c-k)")
+# the statement's quantity is (log-density difference) + log-correction.  Other associations are different float32 functions: (p+k)-c and
+# p-(c-k) absorb the correction into a large log-density before the cancellation (error up to ulp(|p|), unbounded relative to the result),
+# so they are not accepted as "the rule" (round-4 seed C05-E: wrong accept decisions for |log p| >= 1e5 with a non-zero correction)
+ORDERS = ("(p-c)+k",)
 
 
 def traced(key, cur, prop, corr, x, xp):
@@ -250,7 +253,7 @@ def main():
                    "all 2^32 values of the random word behind jax.random.uniform", "no other bound: mh_step has no loops"]
     chk.assume("exp is an uninterpreted float32 function constrained by: NaN<->NaN, non-negative, exp(-inf)=+0, exp(+inf)=+inf, exp(+-0)=1, >=1 on x>=0, <=1 on x<0, monotone",
                "random_bits(key) is an arbitrary 32-bit word (ideal PRNG)",
-               "the log ratio may be associated in any of the orders " + ", ".join(ORDERS),
+               "the log ratio is (proposed - current) + correction in float32, as the statement writes it (other associations lose the correction by absorption and are reported)",
                "model interface: DictInterface whose log_prob reads a state entry (update_state/log_prob traced from the real class)")
     return chk.finish(technique=TECH)
 
